@@ -333,7 +333,7 @@ func TestC21(t *testing.T) {
 	m.Gate("crafted_salt_block_edge", m.N(100, 2000), "salt length 63/64/65/127/128/129 or 0")
 	m.Gate("crafted_read_by_openssl", m.N(6, 60), "crafted files confirmed by OpenSSL")
 	m.Gate("wrong_password_cases", m.N(1400, 28000), "wrong passwords judged")
-	m.Gate("bad_padding_cases", m.N(300, 3000), "wrong PKCS#7 padding must be an error")
+	m.Gate("bad_padding_cases", m.N(250, 2500), "wrong PKCS#7 padding must be an error")
 	m.Gate("mut_cases", m.N(20000, 900000), "mutated files run through Decode and ToPEM")
 	m.Gate("mut_past_mac", m.N(8000, 400000), "mutations below the MAC (re-MACed) that reached the parsers behind it")
 	m.Gate("truncation_cases", m.N(500, 4000), "strict prefixes must be errors")
